@@ -53,6 +53,15 @@ CHECKS.update({
    text="TLC checks NoInvent, token ownership and NoWedge over all interleavings of 2-3 readers on a ring of capacity 2-3 with the batch handed back after an arbitrary delay; random walks of the same spec with the real capacity 16 are executed on the real buffer one atomic step at a time "
         "(state after every step compared with the spec), concurrent bursts run free, and after each the trace must show that later sequential hits are delivered again.",
    note="Atomic-step grain relies on the verif yield hooks before each atomic load/CAS/store; dropping events is allowed (lossy), only invention, duplication and loss of progress are violations."),
+ "C09": dict(level="model_checking", ref="4 C09",
+   technique="TLA+ spec TinyLfuHot.tla (TinyLfu.tla with exact frequencies under the hot-set workload) model-checked by TLC for retention; request traces of the real cache validated by TLC (C09Trace) which executes a strict LRU reference of the same size along each trace",
+   text="TLC checks that a hot set of up to half the cache that keeps being read is never evicted by any interleaving of one-off insertions and sketch agings (capacities 4 and 6, exact admission rule); generated hot-set and Zipf traces are served by the real cache "
+        "(plain/loading, uniform/mixed costs, fresh or after concurrent use) and TLC compares hit counts with an LRU reference it executes on the same requests, and checks retention and convergence of the hot-set hit ratio.",
+   note="Retention is model-checked for small capacities; the Zipf-versus-LRU clause is a measurement (exploration) on sizes up to 200 (1000 thorough) with a 1% tolerance; hybrid caches and sizes of 10^4..10^5 are not evaluated."),
+ "C10": dict(level="model_checking", ref="4 C10", technique=STORE_T,
+   text="TLC checks the close configuration of Store.tla with deadlock checking on (a call that can never return is a deadlock): writers parked on a full queue, waiters and Close at every point; the schedules are replayed on the real store with the write queue shrunk to 1-2 slots, "
+        "free-running histories race Close against every kind of call with a watchdog per call, post-close behaviour is validated by TLC (reads miss, writes have no effect, loading Get fails with the closed error, Wait returns) and a goroutine census after Close must equal the one before the store was created.",
+   note="A hang in a replayed schedule counts only if it reproduces; plain and loading caches (hybrid: see C14/C15)."),
  "C13": dict(level="model_checking", ref="4 C13",
    technique="TLA+ spec SingleFlight.tla (Group.Do with pooled call records, loader outcomes ok/err/panic/Goexit) model-checked by TLC; TLC schedules replayed on the real Group through verif hook points; cache-level loading histories with failing/panicking loaders validated by TLC (SingleFlightTrace, StoreTrace)",
    text="TLC checks one-loader-per-key, shared results by invocation, no finished call left in the table, no record re-initialised while referenced and return of every call for 2-3 callers; the schedules are executed on the real Group (callers parked at hook points, scripted loader outcomes); "
